@@ -60,6 +60,25 @@ def run(ctx, mod):
             else:
                 axioms, closed = C.parse_assumptions(pout)
             ctx.log('coqc props/P_%s.v: rc=%d in %.1fs; axioms=%s' % (prop, rc2, dt2, sorted(axioms)))
+    coqchk = None
+    if ctx.tier == 'thorough' and build_ok and props_ok and not os.environ.get('VERIF_NO_COQCHK'):
+        # independent re-check of the compiled closure of the property file (separate checker binary)
+        import subprocess
+        t1 = time.time()
+        with C.BuildLock():
+            p = subprocess.run(['timeout', '1500', 'coqchk', '-silent', '-o'] + C.QFLAGS[:15] + ['OV.props.P_%s' % prop],
+                               cwd=C.COQ, stdout=subprocess.PIPE, stderr=subprocess.STDOUT, text=True)
+        axs = []
+        if '* Axioms:' in p.stdout:
+            blk = p.stdout.split('* Axioms:')[1].split('\n* ')[0]
+            axs = sorted(l.strip() for l in blk.splitlines() if l.strip() and l.strip() != '<none>')
+        ours = [a for a in axs if a.startswith('OV.')]
+        coqchk = dict(rc=p.returncode, wall_s=round(time.time() - t1, 1), axioms_of_loaded_libraries=axs, axioms_declared_by_this_development=ours,
+                      type_in_type='type-in-type: <none>' in p.stdout, unsafe_fixpoints_none='unsafe (co)fixpoints: <none>' in p.stdout,
+                      positivity_assumed_none='positivity is assumed: <none>' in p.stdout)
+        ctx.log('coqchk -o OV.props.P_%s: rc=%d in %.0fs, %d library axioms/primitives, %d ours' % (prop, p.returncode, time.time() - t1, len(axs), len(ours)))
+        if p.returncode != 0 or ours:
+            reasons.append(dict(kind='proof', what='coqchk rejects the compiled development or finds axioms declared by it: rc=%d %s %s' % (p.returncode, ours, p.stdout[-800:])))
     files = [os.path.join(C.COQ, f) for f in mod.COQ_FILES] + [os.path.join(C.COQ, 'gen', 'Gen_%s.v' % m) for m in mod.GEN if not m.startswith(('Tab_', 'CFG_', 'Refs'))]
     files += [os.path.join(C.COQ, 'gen', '%s.v' % m) for m in mod.GEN if m.startswith(('Tab_', 'CFG_', 'Refs'))]
     nqed, names = C.count_qed(files)
@@ -144,7 +163,7 @@ def run(ctx, mod):
         distinct_nontrivial=int(ctx.counts.get('distinct_nontrivial', 0)),
         rule=getattr(mod, 'RULE', ''), samples=ctx.samples or pnames[:3],
         counts=ctx.counts, generated_models={m: gen.get(m, (False, 'missing'))[1] for m in mod.GEN},
-        known_findings=known_lines, notes=ctx.notes, exhaustive=bool(getattr(mod, 'EXHAUSTIVE', False)),
+        known_findings=known_lines, notes=ctx.notes, coqchk=coqchk, exhaustive=bool(getattr(mod, 'EXHAUSTIVE', False)),
     )
     cov.update(ctx.cov)
     ev = dict(property_id=prop, tier=ctx.tier, seed=ctx.seed, level='proof', coverage=cov,
